@@ -2,5 +2,5 @@
 # usage: lib/trymut.sh <prop> <sed-expression> <file-relative-to-repo>   (applies, checks, reverts)
 prop=$1; expr=$2; file=$3
 cd /repo && sed -i "$expr" "$file" && git diff --stat | tail -1
-cd /verif && ./check $prop | cut -c1-400
+cd /verif && VERIF_EVIDENCE_DIR=/verif/.build/evidence-mutant ./check $prop | cut -c1-400
 cd /repo && git checkout -- .
